@@ -108,6 +108,30 @@ class LogServer(paramiko.ServerInterface):
         return self._answer("check_channel_env_request", True, channel.get_id(), name, value)
 
 
+def watched(cls):
+    """Observation-only subclass: every value assigned to `saved_exception`
+    is kept in `exc_history` (get_exception() clears the attribute, and API
+    calls such as renegotiate_keys consume it, so the attribute alone loses
+    the cause of a transport's death)."""
+
+    class Watched(cls):
+        def _get_saved(self):
+            return self.__dict__.get("_vf_saved_exception")
+
+        def _set_saved(self, value):
+            self.__dict__["_vf_saved_exception"] = value
+            if value is not None:
+                self.__dict__.setdefault("exc_history", []).append(value)
+
+        saved_exception = property(_get_saved, _set_saved)
+
+    Watched.__name__ = "Watched" + cls.__name__
+    return Watched
+
+
+WatchedTransport = watched(paramiko.Transport)
+
+
 class Pair:
     def __init__(
         self,
